@@ -152,6 +152,10 @@ def accepted_runs_contract(k, inst):
     restore = install_overrides(k, k.world) if k.mode != "native" else (lambda: None)
     try:
         b = build(k, skel)
+        from .solve import skip_unsupported_filters
+
+        # assumption of the claim (listed in the evidence): the filters leave every period a non-empty space
+        skip_unsupported_filters(k, b, skel)
         got = k.call(model=b.model, targets="solve", jit=False)
         if isinstance(got, Raised):
             k.fail("functions-created", repr(got))
